@@ -34,7 +34,8 @@ func cadenceCase(c *fw.Ctx, r *fw.Rand) {
 	ttlA := time.Duration(r.Range(2, 4)) * time.Second
 	ttlB := time.Duration(r.Range(2, 4)) * time.Second
 	ping := time.Duration(r.Range(1, 2)) * time.Second
-	withErrors := r.Intn(2) == 0
+	errMode := r.Pick("none", "isolated", "double")
+	withErrors := errMode != "none"
 	infA := sim.NewStubInformer("freespace")
 	infA.TTL, infA.Valid, infA.Value = ttlA, true, "10"
 	infB := sim.NewStubInformer("numpin")
@@ -47,8 +48,14 @@ func cadenceCase(c *fw.Ctx, r *fw.Rand) {
 			fmu.Lock()
 			defer fmu.Unlock()
 			count[m.Name]++
-			if m.Name != "ping" && count[m.Name]%3 == 2 {
+			if m.Name == "ping" {
+				return nil
+			}
+			if errMode == "isolated" && count[m.Name]%3 == 2 {
 				return errors.New("scripted publish error")
+			}
+			if errMode == "double" && (count[m.Name]%5 == 2 || count[m.Name]%5 == 3) {
+				return errors.New("scripted publish error") // two in a row
 			}
 			return nil
 		}
@@ -85,6 +92,23 @@ func cadenceCase(c *fw.Ctx, r *fw.Rand) {
 			c.Violation("C09/cadence/too-few-publications/"+name, fmt.Sprintf("metric %s was published %d times in %s (ttl-based cadence expects several)", name, len(ps), longest*2+longest/2), nil)
 			continue
 		}
+		// after a failed publication the next attempt comes sooner than the normal
+		// period (documented: TTL/4 instead of TTL/2); demanded: within 0.4 x TTL
+		for i := 0; i+1 < len(ps); i++ {
+			if ps[i].Err == nil || name == "ping" {
+				continue
+			}
+			ttl := time.Duration(ps[i].Metric.Expire - ps[i].At.UnixNano())
+			gap := ps[i+1].At.Sub(ps[i].At)
+			c.Eval("cadence/retry-after-error/" + errMode)
+			if ttl > 0 && gap > ttl*4/10 {
+				c.Violation("C09/cadence/slow-retry-after-publish-error/"+name, fmt.Sprintf("publishing %s failed; the next attempt came %s later (ttl %s; a healthy peer must renew before expiry, the retry period is ttl/4)", name, gap, ttl), nil)
+				break
+			}
+		}
+		if errMode == "double" && name != "ping" {
+			continue // two failures in a row may legitimately reach the expiry; only the retry pace is judged
+		}
 		var prev *sim.Published
 		for i := range ps {
 			p := ps[i]
@@ -114,5 +138,5 @@ func cadenceCase(c *fw.Ctx, r *fw.Rand) {
 			}
 		}
 	}
-	c.Sample(map[string]interface{}{"family": "cadence", "ttl_freespace": ttlA.String(), "ttl_numpin": ttlB.String(), "ping_interval": ping.String(), "publish_errors": withErrors, "publications": len(pubs)})
+	c.Sample(map[string]interface{}{"family": "cadence", "ttl_freespace": ttlA.String(), "ttl_numpin": ttlB.String(), "ping_interval": ping.String(), "publish_errors": errMode, "publications": len(pubs)})
 }
